@@ -135,7 +135,9 @@ def doPar (toks : List String) : Option String := do
   | .error e => pure (showErr e)
   | .ok (lines, cl) =>
     let ls := if lines.isEmpty then "-" else String.intercalate "|" (lines.map showParLine)
-    pure s!"lines={ls} clim={showPair cl}"
+    let ax := (parallelAxes los his order).getD []
+    let axs := if ax.isEmpty then "-" else String.intercalate "|" (ax.map showPair)
+    pure s!"lines={ls} clim={showPair cl} axes={axs}"
 
 def step (st : St) (toks : List String) : St × String :=
   let r :=
